@@ -174,7 +174,11 @@ pub fn repeated_fault(seed: u64, idx: u64) -> Scenario {
     let rc = request_classes();
     let (sname, apply) = &s[rng.below(s.len())];
     let (rname, rbytes) = rc[rng.below(rc.len())].clone();
-    let k = *rng.pick(&[1usize, 2, 3, 5, 7, 8, 9, 12, 16, 17, 24, 33, 64]);
+    let mut k = *rng.pick(&[1usize, 2, 3, 5, 7, 8, 9, 12, 16, 17, 24, 33, 64]);
+    if sname.starts_with("short_write") {
+        // thousands of one-byte writes per connection: keep the run short
+        k = k.min(9);
+    }
     let sequential = rng.chance(1, 2);
     for j in 0..k {
         let mut c = Conn::simple(j, if sequential { j as u32 } else { (j / 4) as u32 }, rbytes.clone(), "");
